@@ -224,9 +224,10 @@ static const char TOKX[] = "abcdefghijklmnopqrstuvwxyzABCDEFGHIJKLMNOPQRSTUVWXYZ
 static std::string cgi_name(std::string const &h) { std::string r = "HTTP_"; for (char c : h) r += c == '-' ? '_' : (char)toupper((unsigned char)c); return r; }
 
 // header value atoms; returns the unfolded value and appends the wire form (possibly folded) to `wire`
+static bool g_small_values = false;     // many-header requests: keep the block well below the 16 KiB cap
 static std::string gen_header_value(std::string &wire) {
     std::string val; wire.clear();
-    int atoms = *vr::range<int>(0, 5);
+    int atoms = g_small_values ? *vr::range<int>(0, 2) : *vr::range<int>(0, 5);
     for (int a = 0; a < atoms; a++) {
         int kind = *vr::range<int>(0, 10);
         std::string v, w;
@@ -339,7 +340,11 @@ static OneReq gen_request(int mount, bool keep, int index, bool force_http11) {
     // headers
     std::set<std::string> used;
     std::vector<std::pair<std::string, std::string>> wire_headers;    // (name as sent, wire value)
-    int nh = *vr::range<int>(0, 6); bool have_long = false;
+    // usually a handful of headers; occasionally so many that the per-connection environment table has to grow several times
+    // (and shrink again when the connection is re-used)
+    int nh = *vr::range<int>(0, 14) == 0 ? *vr::range<int>(45, 140) : *vr::range<int>(0, 6); bool have_long = false;
+    if (nh > 40) { VR.cls("headers.many"); have_long = true; }
+    g_small_values = nh > 40;
     for (int i = 0; i < nh; i++) {
         std::string name = gen_token(12, TOK);
         if (name[0] == '-') name[0] = 'X';
